@@ -231,4 +231,14 @@ def cmp_parts(e):
         op, l, r = e['op'], e['args'][0], e['args'][1]
     else:
         return None
+    # C++20: a >= b on class types is rewritten to (a <=> b) >= 0
+    ll = l
+    while is_node(ll) and ll['k'] in ('cast',):
+        ll = ll['e']
+    if is_node(ll) and ll['k'] in ('opcall', 'bin') and ll.get('op') == '<=>':
+        a, b = (ll['args'][0], ll['args'][1]) if ll['k'] == 'opcall' else (ll['l'], ll['r'])
+        rr = r
+        zero = is_node(rr) and ((rr['k'] == 'int' and rr['v'] == 0) or (rr['k'] == 'construct' and '__unspec' in rr.get('type', '')))
+        if zero:
+            l, r = a, b
     return (_NEG[op] if neg else op), l, r
